@@ -138,6 +138,10 @@ pub assume_specification [str::eq_ignore_ascii_case] (a: &str, b: &str) -> (r: b
 // std::cmp::{min, max} at u32 (dfa.rs imports them by name): specified stand-ins
 #[verifier::external_body] pub fn min(a: u32, b: u32) -> (r: u32) ensures r == (if a <= b { a } else { b }) { unimplemented!() }
 #[verifier::external_body] pub fn max(a: u32, b: u32) -> (r: u32) ensures r == (if a >= b { a } else { b }) { unimplemented!() }
+// a label carries its own copy of the three output flags; they must be the configuration's (C06: the group kind and the mode that were requested)
+pub open spec fn cfg_flags(g: Grapheme, c: RegExpConfig) -> bool {
+    g.is_capturing_group_enabled == c.is_capturing_group_enabled && g.is_output_colorized == c.is_output_colorized && g.is_verbose_mode_enabled == c.is_verbose_mode_enabled
+}
 '''
 
 def build_trie(repo, spec_dir, canary=False):
@@ -159,7 +163,8 @@ def build_trie(repo, spec_dir, canary=False):
     for name, ens in [('chars', '*r == self.chars'), ('minimum', 'r == self.min'), ('maximum', 'r == self.max')]:
         b.verified_fn('grapheme.rs', name, within=G, clauses=[Clause('grapheme.%s' % name, ens, ['C16'])], props=['C07'], fname='Grapheme::' + name)
     b.verified_fn('grapheme.rs', 'new', within=G, props=['C07'], fname='Grapheme::new',
-                  clauses=[Clause('grapheme.new', 'r.chars == chars && r.min == min && r.max == max && r.repetitions@.len() == 0', ['C16', 'C13'])])
+                  clauses=[Clause('grapheme.new', 'r.chars == chars && r.min == min && r.max == max && r.repetitions@.len() == 0', ['C16', 'C13']),
+                           Clause('grapheme.new_flags', 'r.is_capturing_group_enabled == is_capturing_group_enabled && r.is_output_colorized == is_output_colorized && r.is_verbose_mode_enabled == is_verbose_mode_enabled', ['C06'])])
     b.emit("}\nimpl<'a> GraphemeCluster<'a> {")
     b.verified_fn('cluster.rs', 'graphemes', within="^impl<'a> GraphemeCluster<'a> \\{", clauses=[Clause('cluster.graphemes', '*r == self.graphemes', ['C01'])], props=['C07'], fname='GraphemeCluster::graphemes')
     b.emit("}\nimpl<'a> Dfa<'a> {")
@@ -179,6 +184,8 @@ def build_trie(repo, spec_dir, canary=False):
                            Clause('find_next_state.no_relabel', '%s == %s' % (NE, OE), X),
                            Clause('find_next_state.relabel_only_by_upward_merge', '%s != %s ==> r is Some && %s.contains_key((current_state, r->Some_0)) && joined(%s[(current_state, r->Some_0)].chars@) == joined(grapheme.chars@) && %s[(current_state, r->Some_0)].max == grapheme.max - 1 && %s == %s.insert((current_state, r->Some_0), %s[(current_state, r->Some_0)])' % (NE, OE, OE, OE, OE, NE, OE, NE), X),
                            Clause('find_next_state.found_same_label', 'edges_exact(%s) ==> (r is Some ==> %s.contains_key((current_state, r->Some_0)) && label_eq(%s[(current_state, r->Some_0)], *grapheme))' % (OE, OE, OE), X),
+                           Clause('find_next_state.reuse_scope', 'r is Some ==> %s.contains_key((current_state, r->Some_0)) && joined(%s[(current_state, r->Some_0)].chars@) == joined(grapheme.chars@) && (%s[(current_state, r->Some_0)].max == grapheme.max || %s[(current_state, r->Some_0)].max == grapheme.max - 1)' % (OE, OE, OE, OE), X),
+                           Clause('find_next_state.relabel_keeps_config_flags', 'forall|e: (State, State)| #[trigger] %s.contains_key(e) && %s.contains_key(e) && %s[e] != %s[e] ==> cfg_flags(%s[e], *%s.config)' % (NE, OE, NE, OE, NE, N), ['C06']),
                            Clause('find_next_state.none_means_absent', 'r is None ==> label_absent(%s, current_state, *grapheme)' % OE, X)],
                   loops={1: ['*self == *old(self)', 'it1.seq() == into_iter_elts(it1.snapshot@)',
                              'nb_ok(into_iter_elts(it1.snapshot@), current_state, self.graph.edges())', '0 <= it1.index@ <= it1.seq().len()',
